@@ -138,6 +138,36 @@ def run(ctx):
             x = x.astimezone(tz_of(B))
         offt = str(int(x.utcoffset().total_seconds())) if aware is True else "naive"
         cases.append({"s": str(secs), "langs": ["en"], "settings": st, "expect": expect_str(x.replace(tzinfo=None), off=offt), "stratum": "timestamp"})
+    # IANA zone → a *library abbreviation* as TO_TIMEZONE (the table's offset for that abbreviation decides), in particular the abbreviation
+    # the IANA zone itself shows at that moment (CST for Asia/Shanghai, IST for Asia/Kolkata, BST for Europe/London in summer …), whose
+    # table offset may differ from the zone's
+    from props.c11 import table as tz_table
+    abbr = {}
+    for blk in tz_table():
+        for name, off in blk["timezones"]:
+            if "\\" not in name and name not in abbr:
+                abbr[name] = off
+    collide = ["Asia/Shanghai", "Asia/Kolkata", "Europe/London", "Europe/Dublin", "Asia/Manila", "Asia/Seoul", "America/Havana", "Europe/Moscow", "Asia/Taipei",
+               "America/Chicago", "America/New_York", "Europe/Paris", "Australia/Sydney", "Asia/Tokyo"]
+    for _ in range(60 if tier == "quick" else 1200):
+        A = R.choice(collide) if R.random() < 0.7 else R.choice(iana)
+        w = D(R.randint(1950, 2037), R.randint(1, 12), R.randint(1, 28), R.randint(0, 23), R.randint(0, 59))
+        try:
+            x = localize(tz_of(A), w)
+        except Exception:  # noqa
+            continue
+        own = x.tzname()
+        B = own if (own in abbr and R.random() < 0.7) else R.choice(sorted(abbr))
+        aware = R.choice(AWARE)
+        y = x.astimezone(dt.timezone(dt.timedelta(seconds=abbr[B])))
+        st = {"TIMEZONE": A, "TO_TIMEZONE": B, "RELATIVE_BASE": D(2020, 5, 17, 12, 0)}
+        if aware != "default":
+            st["RETURN_AS_TIMEZONE_AWARE"] = aware
+        offs = str(int(y.utcoffset().total_seconds())) if aware is True else "naive"
+        cases.append({"s": w.strftime("%Y-%m-%d %H:%M:%S"), "langs": ["en"], "settings": st, "expect": expect_str(y.replace(tzinfo=None), off=offs),
+                      "stratum": "iana→abbreviation" + ("/own-name" if B == own else "")})
+        cases.append({"s": w.strftime("%d.%m.%Y %H:%M:%S"), "langs": ["en"], "settings": st, "fmts": ["%d.%m.%Y %H:%M:%S"],
+                      "expect": expect_str(y.replace(tzinfo=None), off=offs), "stratum": "iana→abbreviation/custom-format"})
     # targeted: zones with DST, bases within a week/month of a transition
     from dateutil.relativedelta import relativedelta
     for A, w in [("Europe/Paris", D(2020, 4, 1, 12, 0)), ("America/New_York", D(2021, 10, 20, 9, 0)), ("Europe/Paris", D(2020, 3, 29, 12, 0)),
